@@ -146,8 +146,34 @@ static PyObject *Window_get_inner(WindowObject *self, void *c) { Py_INCREF(self-
 static PyGetSetDef Window_getset[] = { {"inner", (getter)Window_get_inner, NULL, "wrapped callable", NULL}, {NULL} };
 static PyObject *Window_repr(WindowObject *self) { return PyUnicode_FromFormat("<allocfault.Window of %R>", self->inner); }
 
+static PyTypeObject WindowType;
+/* Attributes other than .inner are those of the wrapped object; a method of it obtained through the
+   proxy (X_QUOTER.requote, .__call__) is itself a window, so that code calling a quoter in any
+   spelling still runs inside one. */
+static PyObject *Window_getattro(WindowObject *self, PyObject *name) {
+    PyObject *r = PyObject_GenericGetAttr((PyObject *)self, name);
+    if (r != NULL || !PyErr_ExceptionMatches(PyExc_AttributeError)) return r;
+    PyErr_Clear();
+    r = PyObject_GetAttr(self->inner, name);
+    if (r == NULL) return NULL;
+    if (PyCallable_Check(r) && !PyType_Check(r)) {
+        PyObject *owner = PyObject_GetAttrString(r, "__self__");
+        if (owner == NULL) { PyErr_Clear(); return r; }
+        int bound = (owner == self->inner);
+        Py_DECREF(owner);
+        if (bound) {
+            WindowObject *w = PyObject_New(WindowObject, &WindowType);
+            if (!w) { Py_DECREF(r); return NULL; }
+            w->inner = r;   /* steals the reference */
+            return (PyObject *)w;
+        }
+    }
+    return r;
+}
+
 static PyTypeObject WindowType = {
     PyVarObject_HEAD_INIT(NULL, 0)
+    .tp_getattro = (getattrofunc)Window_getattro,
     .tp_name = "allocfault.Window",
     .tp_basicsize = sizeof(WindowObject),
     .tp_dealloc = (destructor)Window_dealloc,
